@@ -329,7 +329,7 @@ class Run(object):
                 lines.append("VIOLATION property=%s replay=%s clause=%s" % (self.prop, path, v["clause"]))
         if not self.samples and self.groups:
             g = self.groups[0]
-            self.samples.append({"group": g["kind"], "def": g["def"]["name"],
+            self.samples.append({"group": g["kind"], "def": g["def"]["name"], "case": g.get("case"), "fault": g.get("fault"),
                                  "members": [{"role": m["role"], "sched": m.get("sched")} for m in g["members"]][:4]})
         if not self.samples and self.results:
             r = self.results[0]
@@ -338,7 +338,8 @@ class Run(object):
                                  "schedule": node_schedule(r, leaf)})
         distinct = len({json.dumps(r["d"]["tasks"], sort_keys=True) + json.dumps(r["env"], sort_keys=True)
                         for r in self.results if len(r["tree"]["nodes"]) > 4})
-        distinct += len({json.dumps([g["def"]["tasks"], [m.get("sched") for m in g["members"]]], sort_keys=True)
+        distinct += len({json.dumps([g["def"].get("tasks"), g.get("case"), g.get("fault"),
+                                     [m.get("sched") for m in g["members"]]], sort_keys=True, default=str)
                          for g in self.groups})
         cov = {
             "states": self.states + self.mc_states, "transitions": self.transitions + self.mc_transitions,
